@@ -578,7 +578,86 @@ func (fr *Frame) applyContract(ins ssa.Instruction, con *Contract, fn *ssa.Funct
 		t := v.evalBool(env, en.Expr)
 		fr.ctx.assert(implies(reach, t), "ensures of "+con.Key+": "+en.Text)
 	}
+	for _, en := range con.Ensures {
+		if en.Canary {
+			continue
+		}
+		env := &Env{fr: nil, vars: pvars, cur: nst, old: st, pkg: pkg}
+		nst = fr.pinUnchanged(env, en.Expr, nst)
+	}
 	return res, nst
+}
+
+// pinUnchanged: for every top-level conjunct "A == old(A)" that has just been assumed (A a scalar field of a
+// pre-existing object), the pre-state term of A is written over the havocked value. The state denotes the same
+// heap (the equality is assumed), but later reads of A are syntactically the old value, so they are recognised
+// as entry-state values and facts stated about them apply without a detour through the equality.
+func (fr *Frame) pinUnchanged(env *Env, e SExpr, st *State) *State {
+	b, ok := e.(*SBinary)
+	if !ok {
+		return st
+	}
+	if b.Op == "&&" {
+		st = fr.pinUnchanged(env, b.X, st)
+		env2 := env.clone()
+		env2.cur = st
+		return fr.pinUnchanged(env2, b.Y, st)
+	}
+	if b.Op != "==" {
+		return st
+	}
+	isOldOf := func(o, a SExpr) bool {
+		c, ok := o.(*SCall)
+		if !ok || len(c.Args) != 1 {
+			return false
+		}
+		id, ok := c.Fn.(*SIdent)
+		return ok && id.Name == "old" && c.Args[0].String() == a.String()
+	}
+	var a SExpr
+	switch {
+	case isOldOf(b.Y, b.X):
+		a = b.X
+	case isOldOf(b.X, b.Y):
+		a = b.Y
+	default:
+		return st
+	}
+	sel, ok := a.(*SSel)
+	if !ok || strings.HasPrefix(sel.Name, "$") || env.old == nil {
+		return st
+	}
+	var out *State
+	func() {
+		defer func() {
+			if r := recover(); r != nil {
+				out = nil
+			}
+		}()
+		ne := env.clone()
+		ne.cur = st
+		l, t := fr.v.evalLocation(ne, a)
+		if l == nil || l.isElem() || l.isGlobal() {
+			return
+		}
+		switch kindOf(t) {
+		case KInt, KBool, KStr, KRef:
+		default:
+			return
+		}
+		if fr.v.classify(l.Ref) != rcOld {
+			return
+		}
+		oe := env.clone()
+		oe.cur = env.old
+		oe.at = nil
+		ov := fr.v.evalSpec(oe, a)
+		out = fr.storeLoc(st, l, t, ov)
+	}()
+	if out == nil {
+		return st
+	}
+	return out
 }
 
 func isScalarKind(k Kind) bool {
